@@ -5,6 +5,9 @@ generated schedule) -> judge (TLC on TracePar).
                 small (n, w), sampled interleavings up to n=40, w=17          -> scan cases
   ParField.tla  L2 model of AddFieldParallel's job queue / block list; design check (NoRace);
                 all job orders for small (attributes, blocks, workers)        -> field cases
+  ParFieldGeom.tla  L2 model of the job geometry along one axis (block borders, empty and
+                whole-block jobs) and of several fields accumulated on ONE canvas; design check;
+                every history of 1..2 ranges with its classification          -> geometry cases
   vh par-exec   runs the sequential counterpart and the parallel entry point; the harness
                 callbacks block every invocation, a controller releases them in the order of
                 the generated schedule; events are written in release order
@@ -108,6 +111,106 @@ def mk_field(api, shape, attrs, order, *, pre=False, cpu=1, neg=False, ncpu=0, m
             "ncpu": ncpu, "noseq": False, "shape": list(shape), "tag": tag}
 
 
+# ---- geometry cases (ParFieldGeom) ----------------------------------------
+
+GEOM_S = 4                                  # block edge of the model
+
+
+def geom_real(m, mid):
+    """model coordinate -> real cell: the residue classes first / second / inside / last cell of a block"""
+    return 100 * (m // GEOM_S) + (0, 1, mid, 99)[m % GEOM_S]
+
+
+def n_blocks(lo, hi):
+    """blocks a domain lo..hi (cells) registers: the canvas range is [lo-1, hi+1) and its exclusive end counts"""
+    return [(hi[k] + 1) // 100 - (lo[k] - 1) // 100 + 1 for k in range(3)]
+
+
+def finish_field_case(c, rnd, attrs):
+    """shape (blocks per axis of the union of all fields), job priorities"""
+    lo = [min(f["lo"][k] for f in c["fields"]) for k in range(3)]
+    hi = [max(f["hi"][k] for f in c["fields"]) for k in range(3)]
+    c["shape"] = n_blocks(lo, hi)
+    nj = max(n_blocks(f["lo"], f["hi"])[0] * n_blocks(f["lo"], f["hi"])[1] * n_blocks(f["lo"], f["hi"])[2]
+             for f in c["fields"]) * len(attrs)
+    c["prio"] = rnd.sample(range(1, nj + 1), nj)
+    return c
+
+
+def mk_geom(api, axis, ranges, rnd, *, attrs=(1,), cpu=1, ncpu=2, cuts2=(0,), apis=None, marchevery=False,
+            reps=(), gated=True, thin=(40, 51), tag="geom", labels=None):
+    """Fields that are thin in two axes and have the canvas range [MN, MX) along `axis`: quantised cylinders
+    along that axis which the domain cuts off at both ends, so the surface reaches the first and the last
+    sample layer and crosses every block border in between."""
+    fields = []
+    for i, (mn, mx) in enumerate(ranges):
+        lo, hi = [thin[0] - i] * 3, [thin[1] + i] * 3
+        lo[axis], hi[axis] = mn + 1, mx - 1
+        c2 = [thin[0] + thin[1] + (1 if k == (axis + 1) % 3 else 0) for k in range(3)]
+        c2[axis] = mn + mx
+        f = {"lo": lo, "hi": hi, "attrs": list(attrs if i == len(ranges) - 1 else attrs[:1]), "c2": c2,
+             "r2": 6 + 2 * i, "axis": axis + 1, "fkind": "", "api": (apis[i] if apis else "")}
+        fields.append(f)
+    c = {"kind": "field", "id": 0, "api": api, "cpu": cpu, "fields": fields, "cuts2": list(cuts2), "march": True,
+         "mattrs": [attrs[0]], "reps": list(reps), "gated": gated, "prio": [], "ncpu": ncpu, "noseq": False,
+         "bits": False, "marchevery": marchevery, "tag": tag, "labels": labels or {}}
+    return finish_field_case(c, rnd, attrs)
+
+
+def mk_fullblock(api, per_axis, order, rnd, *, attrs=(1,), cpu=1, ncpu=3, cuts2=(-5,), apis=None, gated=False,
+                 marchevery=False, tag="fullblock"):
+    """A field whose canvas range covers a COMPLETE block (per_axis: the range [MN, MX) of every axis, taken from
+    the model's histories with a whole-block job) on a canvas that holds, or later receives, a small field inside
+    that block. order: sequence of "thin" / "full"."""
+    blk = [((mn + 100) // 100 * 100 if mn % 100 else mn) for mn, mx in per_axis]     # origin of the covered block
+    ctr = [b + 50 for b in blk]
+    fields = []
+    for i, what in enumerate(order):
+        if what == "full":
+            lo = [mn + 1 for mn, mx in per_axis]
+            hi = [mx - 1 for mn, mx in per_axis]
+            r2 = 24 + 2 * sum(1 for w in order[:i] if w == "full")
+        else:
+            lo, hi = [c - 7 for c in ctr], [c + 7 for c in ctr]
+            r2 = 8
+        f = {"lo": lo, "hi": hi, "attrs": list(attrs if i == len(order) - 1 else attrs[:1]),
+             "c2": [2 * ctr[0] + 1, 2 * ctr[1], 2 * ctr[2]], "r2": r2, "axis": 0, "fkind": "",
+             "api": (apis[i] if apis else "")}
+        fields.append(f)
+    c = {"kind": "field", "id": 0, "api": api, "cpu": cpu, "fields": fields, "cuts2": list(cuts2), "march": True,
+         "mattrs": [attrs[0]], "reps": [], "gated": gated, "prio": [], "ncpu": ncpu, "noseq": False,
+         "bits": False, "marchevery": marchevery, "tag": tag,
+         "labels": {"full": [1 if w == "full" else 0 for w in order],
+                    "over": [1 if w == "full" and i > 0 else 0 for i, w in enumerate(order)]}}
+    return finish_field_case(c, rnd, attrs)
+
+
+def mk_bits(api, shape, rnd, *, ncpu=0, neg=False, reps=(0,), pre=False, cpu=1):
+    """A real-valued tube wall (true distance, irrational values; radius 25 cells, wall 3 cells, 5 layers long)
+    along the axis that straddles two blocks: its inner and outer surface cross the face between the blocks in two
+    circles of ~150 cells. The vertices on that face are computed by BOTH neighbouring blocks; on x- and z-faces
+    the two blocks interpolate one of the in-face edge directions from opposite ends, so the two copies agree only
+    up to the last bit (about one vertex in a hundred differs) and the result depends on which copy survives the
+    merge of the block meshes."""
+    base = -200 if neg else 0
+    main = list(shape).index(2)
+    lo, hi = [], []
+    for k in range(3):
+        a, b = (98, 101) if k == main else (70, 135) if shape[k] == 2 else (15, 80)
+        lo.append(base + a)
+        hi.append(base + b)
+    c2 = [lo[k] + hi[k] + (2, -3, 1)[k] for k in range(3)]
+    fields = []
+    if pre:
+        fields.append({"lo": lo, "hi": hi, "attrs": [1], "c2": [c2[0] + 6, c2[1] - 4, c2[2] + 2], "r2": 30, "axis": main + 1,
+                       "fkind": "ring", "api": ""})
+    fields.append({"lo": lo, "hi": hi, "attrs": [1], "c2": c2, "r2": 50, "axis": main + 1, "fkind": "ring", "api": ""})
+    c = {"kind": "field", "id": 0, "api": api, "cpu": cpu, "fields": fields, "cuts2": [0], "march": True, "mattrs": [1],
+         "reps": list(reps), "gated": True, "prio": [], "ncpu": ncpu, "noseq": False, "bits": True, "marchevery": False,
+         "tag": "bits", "labels": {}}
+    return finish_field_case(c, rnd, (1,))
+
+
 # --------------------------------------------------------------------------
 # generators (TLC)
 # --------------------------------------------------------------------------
@@ -151,18 +254,21 @@ def run_generators(ctx, notes):
         "field": lambda: core.run_tlc(ctx.scratch("gen-field"), "ParField", "ParFieldFixed.cfg",
                                       workers=2 if quick else min(4, core.NCPU), timeout=900),
         "fieldpinned": lambda: core.run_tlc(ctx.scratch("gen-fieldpinned"), "ParField", "ParFieldPinned.cfg", timeout=300),
+        "geom": lambda: core.run_tlc(ctx.scratch("gen-geom"), "ParFieldGeom", "ParFieldGeom.cfg", workers=2, timeout=600),
+        "geomskip": lambda: core.run_tlc(ctx.scratch("gen-geomskip"), "ParFieldGeom", "ParFieldGeomSkip.cfg", timeout=300),
+        "geomcopy": lambda: core.run_tlc(ctx.scratch("gen-geomcopy"), "ParFieldGeom", "ParFieldGeomCopy.cfg", timeout=300),
     }
     with ThreadPoolExecutor(max_workers=min(len(jobs), max(2, core.NCPU // 2))) as ex:
         futs = {k: ex.submit(retry_killed, f) for k, f in jobs.items()}
         res = {k: f.result() for k, f in futs.items()}
     # design-level results on the models themselves
-    for k in ("scan", "field"):
+    for k in ("scan", "field", "geom"):
         if res[k].rc != 0:
             raise core.Infra("model %s violates its own property %s (spec bug)" % (k, res[k].violated))
         ctx.add_tlc(res[k])
     if res["scansim"].rc != 0:
         raise core.Infra("ParScan violates %s in simulation (spec bug)" % res["scansim"].violated)
-    for k in ("scanpinned", "fieldpinned"):
+    for k in ("scanpinned", "fieldpinned", "geomskip", "geomcopy"):
         ctx.add_tlc(res[k])
     notes["model_scan_states"] = res["scan"].distinct
     notes["model_scan_transitions"] = res["scan"].generated
@@ -173,20 +279,27 @@ def run_generators(ctx, notes):
     if res["scanpinned"].violated != "Termination" or res["fieldpinned"].violated != "NoRace":
         raise core.Infra("the pinned-shape models are expected to be refuted (Termination / NoRace), got %s / %s" %
                          (res["scanpinned"].violated, res["fieldpinned"].violated))
+    # the two shapes of the round-2 seeded changes are refuted at design level
+    if res["geomskip"].violated != "RegOK" or res["geomcopy"].violated != "ContentOK":
+        raise core.Infra("ParFieldGeom: the skip-empty-job / copy-whole-block shapes are expected to be refuted "
+                         "(RegOK / ContentOK), got %s / %s" % (res["geomskip"].violated, res["geomcopy"].violated))
+    geoms = dedupe(res["geom"].values, "f")
+    notes["model_geom_states"] = res["geom"].distinct
+    notes["geom_histories"] = len(geoms)
     scheds = dedupe(res["scan"].values, "sched")
     sims = [s for s in dedupe(res["scansim"].values, "sched") if s["n"] > 0]
     orders = dedupe(res["field"].values, "order")
     notes["bfs_schedules"] = len(scheds)
     notes["sim_schedules"] = len(sims)
     notes["field_job_orders"] = len(orders)
-    return scheds, sims, orders
+    return scheds, sims, orders, geoms
 
 
 # --------------------------------------------------------------------------
 # cases
 # --------------------------------------------------------------------------
 
-def build_cases(ctx, scheds, sims, orders):
+def build_cases(ctx, scheds, sims, orders, geoms):
     quick = ctx.tier == "quick"
     seed = ctx.seed
     rnd = random.Random(1000 + seed)
@@ -278,10 +391,109 @@ def build_cases(ctx, scheds, sims, orders):
                          cpu=cpu, neg=neg, march=True, cuts2=cuts2, mattrs=attrs[:1],
                          reps=(0, 2) if quick else (0, 1, 3), pre=(j % 2 == 1), tag="march")
             fcases.append(c)
+    fcases += geometry_cases(ctx, geoms, rnd)
     cases += fcases
     for i, c in enumerate(cases):
         c["id"] = i
+        if c["kind"] == "field":
+            c.setdefault("bits", False)
+            c.setdefault("marchevery", False)
+            for f in c["fields"]:
+                f.setdefault("axis", 0)
+                f.setdefault("fkind", "")
+                f.setdefault("api", "")
     return cases
+
+
+PAR_APIS = ("AddFieldParallel", "AddFieldParallel2")
+THINS = ((40, 51), (-60, -49), (3, 14), (150, 161))
+
+
+def geometry_cases(ctx, geoms, rnd):
+    """(7)-(10): the dimensions added in round 2 (NOTES-c10.md): where a field starts and ends relative to the
+    block borders, whole-block jobs, several fields on ONE canvas, bit-exact comparison on real-valued fields."""
+    quick, seed = ctx.tier == "quick", ctx.seed
+    mid = (50, 98, 2, 37, 63)[seed % 5]
+    real = lambda r: (geom_real(r[0], mid), geom_real(r[1], mid))
+    usable = [g for g in geoms if all(real(r)[1] - real(r)[0] >= 2 for r in g["f"])]
+    singles = sorted((g for g in usable if len(g["f"]) == 1), key=lambda g: g["f"])
+    pairs = sorted((g for g in usable if len(g["f"]) == 2), key=lambda g: g["f"])
+    out = []
+    ncpus = (2, 3, 5, 0)
+    cpus = (1, 1, 2, 1, 4, 1, 3, 1, 10)
+
+    def labels(g):
+        return {k: g[k] for k in ("f", "cls", "empty", "full", "over", "rel")}
+
+    # (7) one field: every class of (start residue, end residue, blocks) of the model along one axis
+    ending = [g for g in singles if g["empty"][0] > 0]             # the end is an exact multiple of the block size
+    others = [g for g in singles if g["empty"][0] == 0]
+    plan = []                                                       # (history, axis, api)
+    if quick:
+        for axis in range(3):
+            for ai, api in enumerate(PAR_APIS):                     # always: an empty last job on every axis, both entries
+                plan.append((ending[(seed * 7 + axis * 5 + ai * 3) % len(ending)], axis, api))
+        for j in range(6):                                          # rotating: the other classes
+            plan.append((others[(seed * 11 + j * 13) % len(others)], (j + seed) % 3, PAR_APIS[(j + seed) % 2]))
+    else:
+        for j, g in enumerate(singles):
+            axis = (j + seed) % 3
+            both = g["empty"][0] > 0 or g["full"][0] > 0 or g["cls"][0][0] in (0, 3)
+            for ai, api in enumerate(PAR_APIS):
+                if both or (j + seed + ai) % 2 == 0:
+                    plan.append((g, (axis + ai) % 3, api))
+    for j, (g, axis, api) in enumerate(plan):
+        cuts2 = (0,) if quick or j % 4 else (0, 3)                  # 1.5: a sheet along the whole grown domain
+        out.append(mk_geom(api, axis, [real(g["f"][0])], rnd, ncpu=ncpus[(j + seed) % 4], cpu=cpus[(j + seed) % len(cpus)],
+                           cuts2=cuts2, thin=THINS[(j + seed) % len(THINS)], gated=(j % 3 != 2),
+                           attrs=(1, 21) if j % 5 == 4 else (1,), tag="geom", labels=labels(g)))
+
+    # (8) two fields on ONE canvas: one history per class (relation, whole-block job over earlier samples,
+    #     empty jobs, whole-block jobs); the earlier field goes in through any of the three entry points
+    classes = {}
+    for g in pairs:
+        key = (g["rel"], g["over"][1] > 0, g["empty"][1] > 0, g["empty"][0] > 0, g["full"][1] > 0, g["full"][0] > 0)
+        classes.setdefault(key, []).append(g)
+    keys = sorted(classes)
+    chosen = [keys[(seed * 5 + j * 21) % len(keys)] for j in range(4)] if quick else keys
+    for j, key in enumerate(chosen):
+        gs = classes[key]
+        g = gs[(seed * 17 + j) % len(gs)]
+        api = PAR_APIS[(j + seed) % 2]
+        first = ("", "AddField", PAR_APIS[(j + seed + 1) % 2])[(j + seed) % 3]
+        cuts2 = (0, -5) if g["rel"] not in ("touch", "apart") else (0,)
+        out.append(mk_geom(api, (j + seed) % 3, [real(r) for r in g["f"]], rnd, ncpu=ncpus[(j + seed + 1) % 4],
+                           cuts2=cuts2, apis=[first, ""], marchevery=(j % 4 == 1), thin=THINS[(j + seed) % 2],
+                           gated=(j % 3 != 0), tag="geom-pair", labels=labels(g)))
+
+    # (9) a field covering a COMPLETE block (10^6 samples in one job) on a canvas that holds / later receives others
+    fulls = [real(g["f"][0]) for g in singles if g["full"][0] == 1 and g["cls"][0][2] == 2]      # two blocks per axis
+    fulls3 = [real(g["f"][0]) for g in singles if g["full"][0] == 1 and g["cls"][0][2] == 3]
+    pick = lambda lst, k: lst[(seed * 3 + k) % len(lst)]
+    fplan = [(PAR_APIS[1], ("thin", "full"), 0), (PAR_APIS[0], ("thin", "full"), 1)]
+    if not quick:
+        fplan += [(PAR_APIS[1], ("full", "thin"), 2), (PAR_APIS[0], ("full", "thin"), 3),
+                  (PAR_APIS[1], ("full", "full"), 4), (PAR_APIS[1], ("thin", "full", "thin"), 5),
+                  (PAR_APIS[0], ("full", "full"), 6)]
+    for j, (api, order, k) in enumerate(fplan):
+        per_axis = [pick(fulls, k + 2 * a) for a in range(3)]
+        if not quick and j == 5:
+            per_axis[seed % 3] = pick(fulls3, k)
+        first = ("", "AddField")[(j + seed) % 2] if order[0] == "thin" else ""
+        out.append(mk_fullblock(api, per_axis, order, rnd, ncpu=ncpus[(j + seed) % 3], apis=[first] + [""] * (len(order) - 1),
+                                cuts2=(-5,) if quick else (-5, 0), attrs=(1, 21) if j == 4 else (1,),
+                                cpu=2 if j == 3 else 1))
+
+    # (10) real-valued fields, triangle corners compared bit by bit: the surface crosses block faces, where both
+    #      neighbouring blocks compute the shared vertices
+    bplan = [((2, 1, 1), (1, 1, 2))[seed % 2]]
+    if not quick:
+        bplan += [((1, 1, 2), (2, 1, 1))[seed % 2], (1, 2, 1), (2, 2, 1), (1, 2, 2), (2, 1, 2)]
+    for j, shape in enumerate(bplan):
+        for r in range(1 if quick else 2):
+            out.append(mk_bits(PAR_APIS[(j + r + seed) % 2], shape, rnd, ncpu=(0, 3, 2)[(j + r) % 3], neg=(j + r) % 2 == 1,
+                               reps=(0, 1, 2, 3) if quick else (0, 1, 2, 3, 5), pre=(r == 1)))
+    return out
 
 
 def race_subset(ctx, cases):
@@ -298,13 +510,17 @@ def race_subset(ctx, cases):
                 out.append(dict(c))
         else:
             key = (c["api"], c["march"], c["tag"])
-            lim = {"march": 1 if quick else 3, "model-order": 10 if quick else 80, "seeded-order": 6 if quick else 40}[c["tag"]]
+            lim = {"march": 1 if quick else 3, "model-order": 10 if quick else 80, "seeded-order": 6 if quick else 40,
+                   "geom": 2 if quick else 8, "geom-pair": 2 if quick else 8, "fullblock": 0 if quick else 1,
+                   "bits": 0}[c["tag"]]
             nb = c["shape"][0] * c["shape"][1] * c["shape"][2]
-            if c["march"] and nb > 2:
+            if c["tag"] == "march" and nb > 2:
                 continue
             if per.get(key, 0) < lim and c["ncpu"] != 1:
                 per[key] = per.get(key, 0) + 1
                 d = dict(c, noseq=True)
+                if d["tag"] != "march":
+                    d["march"] = False          # the accumulation is what these cases add; marching races: tag "march"
                 if d["march"]:
                     d["cuts2"], d["reps"], d["mattrs"] = d["cuts2"][:1], [0], d["mattrs"][:1]
                 out.append(d)
@@ -499,6 +715,26 @@ def execute(ctx, vh, vhr, cases, rcases, notes):
 
 def judge(ctx, name, trace):
     """Validate trace lines with TLC; returns findings [(pred, case dict, line dict, race line or None)]."""
+    # core.shard_trace cuts by line count: spread the few heavy units (marching results with 10^3..10^5
+    # triangles) evenly among the many light ones so that every shard gets its share of them
+    units = []
+    for ln in trace:
+        if ln.startswith('{"k":"case"') or not units:
+            units.append([])
+        units[-1].append(ln)
+    heavy = [u for u in units if sum(map(len, u)) > 50000]
+    light = [u for u in units if sum(map(len, u)) <= 50000]
+    heavy.sort(key=lambda u: -sum(map(len, u)))
+    nsh = min(core.NCPU, 16)
+    heavy = [u for k in range(nsh) for u in heavy[k::nsh]]          # consecutive runs of similar total weight
+    step = (len(light) // len(heavy) + 1) if heavy else 0
+    trace = []
+    for k, u in enumerate(heavy):
+        for v in light[k * step:(k + 1) * step]:
+            trace += v
+        trace += u
+    for v in light[len(heavy) * step:]:
+        trace += v
     results = retry_killed(lambda: core.validate_sharded(
         ctx, name, "TracePar", "TracePar.cfg", trace,
         is_boundary=lambda ln: ln.startswith('{"k":"case"'), timeout=3000))
@@ -521,6 +757,13 @@ def entry_point(c, ln):
     """the parallel entry point a rejected line is about"""
     if ln.get("k") == "march" and ln.get("what") == "marchpar":
         return "MarchOnAttributeParallel"
+    if c["kind"] == "field" and ln.get("k") == "field" and ln.get("api"):
+        return ln["api"]                        # the entry point that added this field (may differ from the case's)
+    if c["kind"] == "field" and ln.get("k") == "march":
+        # the canvas was filled by every field up to fi: name the parallel entry points among them
+        upto = c["fields"][:ln.get("fi", len(c["fields"]) - 1) + 1]
+        par = sorted({f.get("api") or c["api"] for f in upto} - {"AddField"})
+        return "+".join(par) if par else c["api"]
     return api_name(c)
 
 
@@ -630,13 +873,14 @@ def selftest(ctx, trace, findings):
     tests.append(("free-run-duplicate", a, "C10.Once"))
     a = json.loads(json.dumps(rows)); del a[-1]["ev"][2]
     tests.append(("free-run-missing", a, "C10.All"))
-    rows = pick(lambda r: r[0]["c"]["kind"] == "field" and len(r) >= 2 and r[1]["k"] == "field" and len(r[1]["par"]) > 10
-                and r[1]["par"][0][1] != r[1]["par"][0][3] and r[1]["sst"] == "OK")
-    a = json.loads(json.dumps(rows)); a[1]["par"][3][4] = 2
+    rows = pick(lambda r: r[0]["c"]["kind"] == "field" and len(r) >= 2 and r[1]["k"] == "field" and len(r[1]["par"]) >= 1
+                and r[1]["par"][0][1:3] != r[1]["par"][0][5:7] and r[1]["par"][0][1] < r[1]["par"][0][2]
+                and r[1]["sst"] == "OK")
+    a = json.loads(json.dumps(rows)); a[1]["par"][0][7] = 2
     tests.append(("sample-twice", a, "C10.FieldOnce"))
-    a = json.loads(json.dumps(rows)); del a[1]["par"][5]
+    a = json.loads(json.dumps(rows)); a[1]["par"][0][2] -= 1
     tests.append(("sample-missing", a, "C10.FieldSamples"))
-    a = json.loads(json.dumps(rows)); a[1]["par"][0][1], a[1]["par"][0][3] = a[1]["par"][0][3], a[1]["par"][0][1]
+    a = json.loads(json.dumps(rows)); b = a[1]["par"][0]; b[1], b[2], b[5], b[6] = b[5], b[6], b[1], b[2]
     tests.append(("sample-xz-swapped", a, "C10.FieldSamples"))
 
     def has_march(r, what):
@@ -652,6 +896,14 @@ def selftest(ctx, trace, findings):
     tests.append(("triangle-flipped", a, "C10.MarchEqual"))
     a = json.loads(json.dumps(rows)); a[fi]["tris"][0][0] += 1
     tests.append(("field-result-differs", a, "C10.FieldResult"))
+    a = json.loads(json.dumps(rows)); a[fi]["tris"][-1][-1] += 1                # stays sorted and canonical: fast path
+    tests.append(("field-result-last-corner-differs", a, "C10.FieldResult"))
+    a = json.loads(json.dumps(rows)); del a[fi]["tris"][-1]
+    tests.append(("field-result-triangle-missing", a, "C10.FieldResult"))
+    rows = pick(lambda r: r[0]["c"]["kind"] == "field" and r[0]["c"].get("bits") and has_march(r, "marchpar"))
+    mi = next(i for i, x in enumerate(rows) if x["k"] == "march" and x["what"] == "marchpar" and len(x["tris"]) > 4)
+    a = json.loads(json.dumps(rows)); t = a[mi]["tris"][3]; t[-1] ^= 1          # one corner differs in its last bit
+    tests.append(("one-ulp", a, "C10.MarchEqual"))
     a = json.loads(json.dumps(rows)); a.append({"k": "race", "n": 1, "h": 0, "fns": ["x+y"]})
     tests.append(("race-report", a, "C10.RaceFree"))
 
@@ -707,6 +959,16 @@ def stats(ctx, cases, rcases, trace, notes):
         "field_cases_AddFieldParallel2": sum(1 for c in fields if c["api"] == "AddFieldParallel2"),
         "march_cases": sum(1 for c in fields if c["march"]),
         "race_cases": len(rcases),
+        # round-2 dimensions
+        "field_cases_empty_last_job": sum(1 for c in fields if any(c.get("labels", {}).get("empty", []))),
+        "field_cases_whole_block_job": sum(1 for c in fields if c["tag"] == "fullblock"),
+        "field_cases_whole_block_over_earlier_samples": sum(1 for c in fields if c["tag"] == "fullblock" and
+                                                            any(c["labels"]["over"])),
+        "field_cases_several_fields_one_canvas": sum(1 for c in fields if len(c["fields"]) > 1),
+        "field_cases_march_after_every_field": sum(1 for c in fields if c.get("marchevery") and len(c["fields"]) > 1),
+        "field_cases_earlier_field_by_other_entry": sum(1 for c in fields if any(f.get("api") for f in c["fields"])),
+        "field_cases_bit_exact_real_valued": sum(1 for c in fields if c.get("bits")),
+        "geom_classes_executed": len({json.dumps(c["labels"]["cls"]) for c in fields if c["tag"] in ("geom", "geom-pair")}),
     })
     kinds = {}
     tri = 0
@@ -716,6 +978,7 @@ def stats(ctx, cases, rcases, trace, notes):
         kinds[k] = kinds.get(k, 0) + 1
         if k == "march" and '"tris":[[' in ln:
             tri += 1
+            notes["march_triangles_max"] = max(notes.get("march_triangles_max", 0), ln.count("],[") + 1)
         # how faithfully the controller imposed the generated interleavings (a measurement, not a verdict)
         if k == "case":
             cur, vis = json.loads(ln)["c"], []
@@ -732,6 +995,10 @@ def stats(ctx, cases, rcases, trace, notes):
             "cases with n < w": notes["scan_cases_n_lt_w"], "cases with n % w != 0": notes["scan_cases_n_not_divisible"],
             "multi-block field cases": notes["field_cases_multi_block"],
             "field cases with more jobs than workers": notes["field_cases_more_jobs_than_workers"],
+            "field cases whose last job is empty (end on a block border)": notes["field_cases_empty_last_job"],
+            "field cases with a whole-block job over earlier samples": notes["field_cases_whole_block_over_earlier_samples"],
+            "cases with several fields on one canvas": notes["field_cases_several_fields_one_canvas"],
+            "bit-exact cases": notes["field_cases_bit_exact_real_valued"],
             "model schedules imposed exactly": exact_}
     empty = [k for k, v in need.items() if v == 0]
     if empty:
@@ -746,8 +1013,8 @@ def run_family(ctx):
     notes = {}
     vh = core.build_vh()
     vhr = core.build_vh(race=True)
-    scheds, sims, orders = run_generators(ctx, notes)
-    cases = build_cases(ctx, scheds, sims, orders)
+    scheds, sims, orders, geoms = run_generators(ctx, notes)
+    cases = build_cases(ctx, scheds, sims, orders, geoms)
     rcases = race_subset(ctx, cases)
     for i, c in enumerate(rcases):
         c["id"] = len(cases) + i
@@ -765,15 +1032,22 @@ def run_family(ctx):
     ctx.traces += len(cases) + len(rcases)
     ctx.evaluations += len(trace)
     ctx.nontrivial = len({json.dumps([c.get("variant"), c.get("topo"), c.get("n"), c.get("w"), c.get("prio"), c.get("api"),
-                                      c.get("shape"), c.get("ncpu")]) for c in cases
+                                      c.get("shape"), c.get("ncpu"), c.get("fields") if c.get("labels") is not None else 0])
+                          for c in cases
                           if (c["kind"] == "scan" and c["n"] >= 2 and c["w"] >= 2) or
                           (c["kind"] == "field" and c["shape"] != [1, 1, 1])})
     ctx.rule = ("scan cases: every interleaving of the ParScan model (n<=%d, w<=%d), sampled interleavings up to n=40,w=17, "
                 "a sweep over all n<=40, w<=17, seeded priorities and free-running perturbed runs up to n=400,w=64, over 9 entry points; field cases: every "
                 "job order of the ParField model plus seeded orders on canvases of 1-9 blocks with 2..16 workers (CPU "
-                "affinity), AddFieldParallel and AddFieldParallel2, March vs MarchParallel; a case is distinct by (entry "
-                "point, n, w, schedule) / (entry point, block shape, workers, order); non-trivial: n>=2 and w>=2, or more "
-                "than one block" % ((6, 4) if ctx.tier == "quick" else (8, 5)))
+                "affinity), AddFieldParallel and AddFieldParallel2, March vs MarchParallel; field geometry: the histories "
+                "of the ParFieldGeom model (1-2 fields on one canvas, every class of start/end residue relative to the "
+                "block size incl. ends on a block border, whole-block jobs, %s), fields covering a complete 100^3 block "
+                "before/after another field, real-valued fields compared bit by bit; a case is distinct by (entry "
+                "point, n, w, schedule) / (entry point, block shape, workers, order, fields); non-trivial: n>=2 and w>=2, "
+                "or more than one block" % (((6, 4) if ctx.tier == "quick" else (8, 5)) +
+                                             (("a seed-rotated subset plus always one empty last job per axis and entry point",)
+                                              if ctx.tier == "quick" else
+                                              ("every single-range class, one pair per relation class",))))
     for c in ([c for c in cases if c["kind"] == "scan" and c["n"] >= 5 and c["w"] >= 3][:2] +
               [c for c in cases if c["kind"] == "field" and c["shape"] != [1, 1, 1]][:1] +
               [c for c in cases if c["kind"] == "field" and c["march"]][1:2]):
@@ -786,7 +1060,13 @@ def run_family(ctx):
         "race freedom is decided by the Go race detector on the generated schedules (trusted auxiliary observer), "
         "reports are attributed to polyform when both racing accesses are in polyform frames",
         "worker counts of AddFieldParallel/MarchParallel are runtime.NumCPU(): varied by CPU affinity of the harness process",
-        "values are small integers (exact in float64); triangle corners are integers in units of 1/1680 cell",
+        "lattice cases: values are small integers (exact in float64), at most two fields overlap per attribute, "
+        "triangle corners are integers in units of 1/1680 cell; bit-exact cases: real-valued fields, every corner "
+        "coordinate is logged as its IEEE-754 bit pattern and compared for identity",
+        "the sample multiset of a field is logged as boxes in a canonical form (maximal runs merged along x, y, z): "
+        "lossless, and equal multisets have equal encodings; triangle lists are logged in the canonical form of the "
+        "multiset, TLC checks the form (SortedCanon) before it compares lists by equality and falls back to the "
+        "general multiset comparison otherwise",
     ]
 
 
